@@ -343,12 +343,39 @@ def predicates(rep, mod, fns):
         if not ok:
             rep.violate('C17.pred', mod, q, f'{q}: tests {sorted(subs)}', f'{q}: tests {sorted(subs)} but state elements are kinds containing dff or latch', node=fns.get(q, sn))
     # s_nodes order: ports, then flip-flops, then latches
-    r = [x for x in find_all(sn, ast.Return)]
-    txt = norm(r[0].value).replace(' ', '') if r else ''
-    ok = txt == "list(self.io_nodes)+[nforninself.nodesif'dff'inn.kind.lower()]+[nforninself.nodesif'latch'inn.kind.lower()]"
-    rep.ob('C17.pred', 's_nodes = ports + flip-flops + latches', ok)
-    if not ok:
-        rep.violate('C17.pred', mod, sn, r[0] if r else 's_nodes', 's_nodes must list io_nodes, then nodes whose kind contains dff, then nodes whose kind contains latch (index order)', node=sn)
+    # evaluated (Engine M) on every node list of length <= 4 over representative kinds and every port subset/order of size <= 2
+    import itertools
+    from kvstatic import minieval
+    kinds = ['AND2', 'DFFX1', 'sdffar', 'LATCH', 'dlatch_dff', 'input']
+    bad = None
+    ncase = 0
+    try:
+        for n in range(0, 4):
+            for ks in itertools.product(kinds, repeat=n):
+                nodes = [minieval.NS(kind=k, index=i, name=f'n{i}') for i, k in enumerate(ks)]
+                for io in [()] + [(i,) for i in range(n)] + [(i, j) for i in range(n) for j in range(n) if i != j]:
+                    ncase += 1
+                    me = minieval.NS(nodes=nodes, io_nodes=[nodes[i] for i in io])
+                    try:
+                        got = minieval.call_function(sn, [me])
+                        got = [x.index for x in got]
+                    except (IndexError, KeyError, TypeError, AttributeError) as e:
+                        got = f'{type(e).__name__}'
+                    want = list(io) + [i for i, k in enumerate(ks) if 'dff' in k.lower()] + [i for i, k in enumerate(ks) if 'latch' in k.lower()]
+                    if got != want and bad is None:
+                        bad = (ks, io, got, want)
+        ok = bad is None
+        rep.ob('C17.pred', f's_nodes = ports + flip-flops + latches (evaluated on {ncase} small circuits)', ok, evals=ncase)
+        if not ok:
+            rep.violate('C17.pred', mod, sn, 's_nodes', f's_nodes must list io_nodes, then nodes whose kind contains dff, then nodes whose kind contains latch (index order): '
+                        f'for node kinds {list(bad[0])} with ports {list(bad[1])} it yields positions {bad[2]} instead of {bad[3]}', node=sn)
+    except ModelError:
+        r = [x for x in find_all(sn, ast.Return)]
+        txt = norm(r[0].value).replace(' ', '') if r else ''
+        ok = txt == "list(self.io_nodes)+[nforninself.nodesif'dff'inn.kind.lower()]+[nforninself.nodesif'latch'inn.kind.lower()]"
+        rep.ob('C17.pred', 's_nodes = ports + flip-flops + latches', ok)
+        if not ok:
+            rep.violate('C17.pred', mod, sn, r[0] if r else 's_nodes', 's_nodes must list io_nodes, then nodes whose kind contains dff, then nodes whose kind contains latch (index order)', node=sn)
 
 
 def levels(rep, mod, f):
